@@ -90,18 +90,67 @@ def _under_no_grad(mod, node) -> bool:
 _MODULE_CONSTS = {}      # name -> literal tuple / list of the module under analysis (set by the caller): `tuple(f(x) for x in NAMES)` is enumerable through it
 
 
+_LIST_SIZES = {}         # local list name -> length, for `(*name[k:], ...)` in the function under analysis (set by the caller)
+
+
+def _list_sizes(func):
+    _LIST_SIZES.clear()
+    for st in ast.walk(func):
+        if isinstance(st, ast.Assign) and len(st.targets) == 1 and isinstance(st.targets[0], ast.Name):
+            v = _tuple_elements(st.value) if isinstance(st.value, (ast.List, ast.Tuple, ast.BinOp)) else None
+            if v is not None:
+                _LIST_SIZES[st.targets[0].id] = len(v)
+
+
+def _int_of(n):
+    """small integer expressions over literals, module-level integer constants and len() of module-level tuples"""
+    if isinstance(n, ast.Constant) and isinstance(n.value, int) and not isinstance(n.value, bool):
+        return n.value
+    if isinstance(n, ast.Name) and isinstance(_MODULE_CONSTS.get(n.id), int):
+        return _MODULE_CONSTS[n.id]
+    if isinstance(n, ast.Call) and isinstance(n.func, ast.Name) and n.func.id == "len" and len(n.args) == 1 and isinstance(n.args[0], ast.Name) \
+            and isinstance(_MODULE_CONSTS.get(n.args[0].id), (tuple, list)):
+        return len(_MODULE_CONSTS[n.args[0].id])
+    if isinstance(n, ast.BinOp) and isinstance(n.op, (ast.Add, ast.Sub)):
+        a, b = _int_of(n.left), _int_of(n.right)
+        return None if a is None or b is None else (a + b if isinstance(n.op, ast.Add) else a - b)
+    return None
+
+
 def _tuple_elements(e):
     """element texts of a tuple-valued expression: literals, tuple(<comprehension over range(a, b)>), concatenation `+`, repetition `(x,) * k`; None if not enumerable"""
     if isinstance(e, (ast.Tuple, ast.List)):
-        return [norm(x) for x in e.elts]
+        out_ = []
+        for x in e.elts:
+            if isinstance(x, ast.Starred):
+                v = x.value
+                if isinstance(v, ast.Subscript) and isinstance(v.value, ast.Name) and v.value.id in _LIST_SIZES and isinstance(v.slice, ast.Slice) and v.slice.step is None:
+                    try:
+                        lo = ast.literal_eval(v.slice.lower) if v.slice.lower is not None else 0
+                        hi = ast.literal_eval(v.slice.upper) if v.slice.upper is not None else _LIST_SIZES[v.value.id]
+                    except (ValueError, SyntaxError):
+                        return None
+                    out_ += [f"{v.value.id}[{i}]" for i in range(*slice(lo, hi).indices(_LIST_SIZES[v.value.id]))]
+                    continue
+                if isinstance(v, ast.Name) and v.id in _LIST_SIZES:
+                    out_ += [f"{v.id}[{i}]" for i in range(_LIST_SIZES[v.id])]
+                    continue
+                sub = _tuple_elements(v)
+                if sub is None:
+                    return None
+                out_ += sub
+            else:
+                out_.append(norm(x))
+        return out_
     if isinstance(e, ast.BinOp) and isinstance(e.op, ast.Add):
         a, b = _tuple_elements(e.left), _tuple_elements(e.right)
         return None if a is None or b is None else a + b
     if isinstance(e, ast.BinOp) and isinstance(e.op, ast.Mult):
         for seq, k in ((e.left, e.right), (e.right, e.left)):
-            if isinstance(k, ast.Constant) and isinstance(k.value, int):
+            kv = _int_of(k)
+            if kv is not None and isinstance(seq, (ast.Tuple, ast.List, ast.BinOp, ast.Call)):
                 a = _tuple_elements(seq)
-                return None if a is None else a * k.value
+                return None if a is None else a * kv
     if isinstance(e, ast.Call) and isinstance(e.func, ast.Name) and e.func.id in ("tuple", "list") and len(e.args) == 1:
         a = e.args[0]
         if isinstance(a, (ast.GeneratorExp, ast.ListComp)) and len(a.generators) == 1 and not a.generators[0].ifs and isinstance(a.generators[0].target, ast.Name) \
@@ -242,13 +291,16 @@ def run(ctx):
         for gname_, gval_ in bw[0].globals.items():
             try:
                 v_ = ast.literal_eval(gval_)
-                if isinstance(v_, (tuple, list)):
+                if isinstance(v_, (tuple, list)) or (isinstance(v_, int) and not isinstance(v_, bool)):
                     _MODULE_CONSTS[gname_] = v_
             except (ValueError, SyntaxError, TypeError):
                 pass
         rets = [r for r in ast.walk(bw[2]) if isinstance(r, ast.Return) and m.enclosing_function(r) is bw[2]]
+        _list_sizes(bw[2])
         for r in rets:
             te_ = _tuple_elements(r.value)
+            if te_ is None and not isinstance(r.value, (ast.Name, ast.Constant, ast.Attribute, ast.Subscript)):
+                raise AnalysisError(f"{cname}.backward: return expression `{short(r.value, 60)}` is not a tuple this analysis can enumerate")
             n_out = len(te_) if te_ is not None else 1
             ctx.check(n_out == n_in, "R2", bw[0], r, f"{cname}.backward", f"{cname}.backward return arity",
                       f"{cname}: backward returns {n_out} cotangents for {n_in} forward inputs",
@@ -288,11 +340,20 @@ def run(ctx):
         ctx.check(slot is not None and f"gvind.append({slot})" in body_txt and f"grads[{slot}] = None" in body_txt, "R2", scf, lists[0], "SCF.backward", "grads index",
                   "cotangent slot of the k-th input is grads[k] (1-based)", "index bookkeeping of the cotangent slots changed")
     rets = [r for r in ast.walk(bw) if isinstance(r, ast.Return) and scf.enclosing_function(r) is bw]
+    _MODULE_CONSTS.clear()
+    for gname_, gval_ in scf.globals.items():
+        try:
+            v_ = ast.literal_eval(gval_)
+            if isinstance(v_, (tuple, list)) or (isinstance(v_, int) and not isinstance(v_, bool)):
+                _MODULE_CONSTS[gname_] = v_
+        except (ValueError, SyntaxError, TypeError):
+            pass
+    _list_sizes(bw)
     for r in rets:
         e = _tuple_elements(r.value)
         if e is None:
             raise AnalysisError(f"SCF.backward: return expression `{short(r.value, 60)}` is not a tuple this analysis can enumerate")
-        ok = e[:8] == [f"grads[{i}]" for i in range(1, 9)] and all(x == "None" for x in e[8:])
+        ok = (e[:8] == [f"grads[{i}]" for i in range(1, 9)] or e[:8] == [f"grads['{nm}']" for nm in first8]) and all(x == "None" for x in e[8:])
         ctx.check(ok, "R2", scf, r, "SCF.backward", "return order", "SCF.backward returns grads[1..8] followed by None for the non-differentiable inputs",
                   f"SCF.backward returns {e[:10]}...: cotangents do not line up with (M, w, W, gss, gpp, gsp, gp2, hsp)")
 
